@@ -152,6 +152,13 @@ fn check_one<P: Pid>(prop: &str, ver: Ver, label: &str, ap: &AP, acc: &mut Acc) 
             if let Framed::Frame { body, ty, flags, .. } = rc::frame_one(&want) {
                 match bridge::parse_body::<P>(ver, ty, flags, &body) {
                     Some(Ok((p2, _))) => {
+                        // the bytes produced for the *parsed* packet are the specification's encoding too (a
+                        // received packet that is forwarded re-serialises what it was read from)
+                        let again = p2.to_continuous_buffer();
+                        if again != want {
+                            let i = again.iter().zip(want.iter()).position(|(a, b)| a != b).unwrap_or(again.len().min(want.len()));
+                            v.push(("c03.parsed-bytes".into(), "parse".into(), format!("the packet parsed from the specification's encoding serialises differently at offset {i}: library {} vs reference {}", hex_trunc(&again[i.saturating_sub(2).min(again.len())..], 16), hex_trunc(&want[i.saturating_sub(2).min(want.len())..], 16))));
+                        }
                         let back = bridge::read(&p2);
                         if &back != ap {
                             v.push(("c03.accessors".into(), "parse".into(), format!("accessors of the packet parsed from the reference encoding return {:?}, the field values are {:?}", format!("{back:?}").chars().take(300).collect::<String>(), format!("{ap:?}").chars().take(300).collect::<String>())));
